@@ -297,8 +297,11 @@ def data_kernel(r, n):
 def fn_verdict(c, io, mf):
     """None if fine, else (kind, signature, text)"""
     method = c["method"]
+    if io.startswith("abort:skipped"):
+        return ("skip", "skipped-after-repeated-aborts", "")
     if io.startswith("abort:"):
-        return ("fail", "abort:fn:%s:%s" % (method, io[6:]), "find_neighbors(%s, check_connectivity=true) aborts (%s)" % (method, io[6:]))
+        return ("fail", "abort:fn:%s:%s" % (method, io[6:]), "find_neighbors(%s, check_connectivity=true) aborts / does not return "
+                "(%s)" % (method, io[6:]))
     f = fields_of(io)
     if "mtried" not in mf:
         return ("broken", "driver:fn", "driver rejected the case: %s" % mf)
@@ -325,9 +328,34 @@ def fn_verdict(c, io, mf):
     return None
 
 
+def run_cases_failfast(ctx, binary, lines, max_aborts=3):
+    """like ctx.run_impl_cases, but after `max_aborts` aborted cases (crash / sanitizer / per-case watchdog) the
+    remaining cases of the batch are not run any more (a hang per case would otherwise cost the watchdog time each)"""
+    outs, todo, aborts = [], list(lines), getattr(ctx, "fn_aborts", 0)
+    while todo:
+        if aborts >= max_aborts:
+            outs += ["abort:skipped-after-repeated-aborts"] * len(todo)
+            break
+        rc, out, err = ctx.run_impl(binary, todo, env=OMP1, timeout=1800)
+        if rc == 0 and len(out) == len(todo):
+            outs += out
+            break
+        n = min(len(out), len(todo))
+        outs += out[:n]
+        if n == len(todo):
+            break
+        summ = ctx.sanitizer_summary(err) or ("timeout" if rc in (-999, -14) else "crash:rc=%d" % rc)
+        outs.append("abort:" + summ)
+        ctx.last_abort_stderr = err[-4000:]
+        aborts += 1
+        todo = todo[n + 1:]
+    ctx.fn_aborts = aborts
+    return outs
+
+
 def run_fn(ctx, binary, cases):
     lines = [G.case_line("fn", c) for c in cases]
-    impl = ctx.run_impl_cases(binary, lines, timeout=1800, env=OMP1)
+    impl = run_cases_failfast(ctx, binary, lines)
     dl = []
     for l, io in zip(lines, impl):
         if io.startswith("abort:"):
